@@ -55,7 +55,7 @@ def _charge_terms(val, v0, v1, dt, stim, scheme):
     A = refphys.areas_cm2(val["radius"], val["length"])
     C = val["capacitance"] * A * 1e3  # nF
     g = val["g"] * A * 1e6  # uS
-    vstar = v1 if scheme == "bwd_euler" else 0.5 * (v0 + v1)
+    vstar = v1 if scheme == "bwd_euler" else (v0 if scheme == "fwd_euler" else 0.5 * (v0 + v1))
     cap = np.sum(C * (v1 - v0)) / dt
     leak = np.sum(g * (vstar - val["e"]))
     inj = sum(a for _, a in stim)
@@ -160,6 +160,23 @@ def check_module(desc, tier="quick"):
                 viol("charge_conservation", backend, dt, "crank_nicolson", f"residual {resid:.3e} nA of gross {gross:.3e}")
             out["cover"].append("crank_nicolson")
             out["digests"].append(digest([parents, ncomps, dt, "cn"]))
+
+    # explicit step (only offered for unbranched modules): the same balance with the membrane currents taken at the old voltages
+    if not has_syn and all(p == -1 for p in parents):
+        for dt in (0.025, 0.005):
+            stim = stim_sets["two"]
+            try:
+                v1, st = step("jaxley.stone", "fwd_euler", dt, stim)
+            except Exception as e:
+                out["refusals"].append(f"fwd_euler:{desc['kind']}:{type(e).__name__}")
+                continue
+            if v1 is None:
+                continue
+            resid, gross, floor = _charge_terms(val, v0, v1, dt, stim, "fwd_euler")
+            if not np.all(np.isfinite(v1)) or abs(resid) > 1e-8 * gross + floor:
+                viol("charge_conservation", "jaxley.stone", dt, "fwd_euler", f"residual {resid:.3e} nA of gross {gross:.3e}")
+            out["cover"].append("fwd_euler")
+            out["digests"].append(digest([parents, ncomps, dt, "fwd"]))
 
     # (d) reciprocity over all ordered pairs, dt = 1.0
     if not has_syn:
